@@ -35,6 +35,12 @@ func fixedCases() []corr.Case {
 			mk("fixed-wide", "wnew "+kd+" 4 2 8 mod", "set 0 1 1", "set 2 2 1", "set 4 3 1", "set 6 4 1", "set 1 5 3", "set 3 6 1", "get 2", "peek 0", "exist 1", "del 3", "del 3", "set 0 7 4"),
 		)
 	}
+	// capacity MaxInt64 on a single shard: capacity/shards + 1 wraps to MinInt64
+	out = append(out,
+		mk("fixed-wide-maxcap", "wnew lru 9223372036854775807 1 8 mod", "set 0 1 1", "get 0"),
+		mk("fixed-wide-maxcap", "wnew tiny 9223372036854775807 1 8 mod", "set 0 1 1", "get 0"),
+		mk("fixed-wide-maxcap", "wnew lru 9223372036854775807 2 8 mod", "set 0 1 1", "get 0"),
+		mk("fixed-wide-maxcap", "wnew lru 9223372036854775806 1 8 mod", "set 0 1 1", "get 0"))
 	// out-of-regime streams: the model follows the code also for negative sizes (size accounting drifts, Back() of an empty list)
 	out = append(out,
 		mk("fixed-negative", "new lru 1", "set 0 1 -5", "set 1 2 6", "stats", "del 0", "stats", "set 2 3 0", "stats"),
